@@ -11,7 +11,7 @@ import (
 )
 
 func init() {
-	register("C06", c06Reparent, c06Params, c06Payload, c06Restore, c06Atomic,
+	register("C06", c06Reparent, c06Params, c06Payload, c06Restore, c06Atomic, c06Own,
 		// the chain stored at a route is what dispatch runs: the chain builder rules of C12
 		c12Const, c12Assembly)
 }
@@ -388,8 +388,8 @@ func c06Params(e *Env) {
 			continue
 		}
 		cnt := usedVar(info, as.Lhs[0])
-		be, isB := unparen(is.Cond).(*ast.BinaryExpr)
-		if !isB || be.Op != token.GTR || usedVar(info, be.X) != cnt || usedVar(info, be.Y) != mp {
+		lo, hi, isLess := normLess(is.Cond)
+		if !isLess || usedVar(info, hi) != cnt || usedVar(info, lo) != mp {
 			continue
 		}
 		for _, s := range is.Body.List {
@@ -406,7 +406,8 @@ func c06Params(e *Env) {
 	ast.Inspect(sh.Decl.Body, func(nd ast.Node) bool {
 		switch x := nd.(type) {
 		case *ast.IfStmt:
-			if be, isB := unparen(x.Cond).(*ast.BinaryExpr); isB && be.Op == token.LSS {
+			if lo, hi, isLess := normLess(x.Cond); isLess {
+				be := &ast.BinaryExpr{X: lo, Y: hi}
 				if c, isC := unparen(be.X).(*ast.CallExpr); isC && isBuiltin(sinfo, c, "cap") && usedVar(sinfo, c.Args[0]) == params {
 					for _, s := range x.Body.List {
 						if a2, isA := s.(*ast.AssignStmt); isA && len(a2.Lhs) == 1 && usedVar(sinfo, a2.Lhs[0]) == params {
@@ -425,4 +426,41 @@ func c06Params(e *Env) {
 		return true
 	})
 	r.Check(reallocPos.IsValid() && findPos.IsValid() && reallocPos < findPos, rule, w.FuncName(sh.Obj)+":params-capacity", w.Pos(sh.Decl.Pos()), "ctx.Params is re-allocated to maxParams capacity before the lookup", "no `if cap(ctx.Params) < maxParams { ctx.Params = make(…, 0, maxParams) }` before the first find")
+}
+
+// normLess normalises a strict integer comparison: `lo < hi`, `hi > lo`, `!(lo >= hi)` and
+// `!(hi <= lo)` all yield (lo, hi, true).
+func normLess(cond ast.Expr) (lo, hi ast.Expr, ok bool) {
+	neg := false
+	x := unparen(cond)
+	for {
+		u, isU := x.(*ast.UnaryExpr)
+		if !isU || u.Op != token.NOT {
+			break
+		}
+		neg = !neg
+		x = unparen(u.X)
+	}
+	be, isB := x.(*ast.BinaryExpr)
+	if !isB {
+		return nil, nil, false
+	}
+	op := be.Op
+	if neg {
+		switch op {
+		case token.GEQ:
+			op = token.LSS
+		case token.LEQ:
+			op = token.GTR
+		default:
+			return nil, nil, false
+		}
+	}
+	switch op {
+	case token.LSS:
+		return be.X, be.Y, true
+	case token.GTR:
+		return be.Y, be.X, true
+	}
+	return nil, nil, false
 }
